@@ -595,6 +595,17 @@ Proof.
   destruct (escape_path rt (fi_dir f)); cbn [bind]; [apply H | reflexivity].
 Qed.
 
+(* the sub-group table consulted by an entry: the segment's one, except for a group (empty) *)
+Lemma subgroups_for_sub seg f k others :
+  lookup k (subgroups_for seg f) = Some others -> lookup k (sections_subgroups seg) = Some others.
+Proof. unfold subgroups_for. destruct (fi_kind f); try (intro H; exact H); discriminate. Qed.
+
+Lemma subgroups_for_leaf seg f : fi_kind f <> KGroup -> subgroups_for seg f = sections_subgroups seg.
+Proof. unfold subgroups_for. destruct (fi_kind f); try reflexivity. intro H. elim H. reflexivity. Qed.
+
+Lemma subgroups_for_group seg f : fi_kind f = KGroup -> subgroups_for seg f = [].
+Proof. unfold subgroups_for. intros ->. reflexivity. Qed.
+
 (* one step of the chain of sub-group expansions: for each section emitted here, the file itself,
    then (unless partial objects are referenced) the sections grouped under it *)
 Definition chain_step (ef : string -> string -> wstate -> res out)
@@ -604,7 +615,7 @@ Definition chain_step (ef : string -> string -> wstate -> res out)
   fold_out (fun k ws =>
       do o1 <- ef k base ws;
       do o2 <- (if reference_partial cfg then Ok ([], snd o1) else
-                match lookup k (sections_subgroups seg) with
+                match lookup k (subgroups_for seg f) with
                 | Some others => fold_out (fun other ws => rec other base ws) others (snd o1)
                 | None => Ok ([], snd o1)
                 end);
@@ -1048,7 +1059,7 @@ Section EmitPaths.
       apply inv_seq.
       + apply (emit_file_inv _ k0 base ws0 o1); [exact HF | exact H1].
       + destruct (reference_partial cfg); [injection H2 as <-; apply inv_nil|].
-        destruct (lookup k0 (sections_subgroups seg)) as [others|]; [|injection H2 as <-; apply inv_nil].
+        destruct (lookup k0 (subgroups_for seg _)) as [others|]; [|injection H2 as <-; apply inv_nil].
         eapply fold_out_inv; [|exact H2]. intros other _ ws1 o3 H3. apply (IHn _ _ _ _ _ H3).
   Qed.
 
